@@ -398,18 +398,20 @@ class SacUFRef:
         # the key under which the next action of sample i is drawn: read off the implementation's own draw at s'_i
         self.keys, self.found = [], True
         lp_apps = [a for a in it.uf_apps if a[0] == "PI" and a[1] == 1]
+        m = S["batch_next_observations"].shape[1]
+        adim = S["batch_actions"].shape[1]
         for i in range(B):
-            so = S["batch_next_observations"][i, 0]
-            cands = [a[3][2] for a in lp_apps if a[3][0].eq(S["pol_theta"][()]) and a[3][1].eq(so)]
+            so = list(S["batch_next_observations"][i])
+            cands = [a[3][-1] for a in lp_apps if a[3][0].eq(S["pol_theta"][()]) and all(x.eq(y) for x, y in zip(a[3][1:1 + m], so))]
             if cands:
                 self.keys.append(cands[0])
             else:
                 self.found = False
-                self.keys.append(lp_apps[i][3][2] if i < len(lp_apps) else z3.Const(f"fresh_key_{i}", KeyS))
+                self.keys.append(lp_apps[i][3][-1] if i < len(lp_apps) else z3.Const(f"fresh_key_{i}", KeyS))
         self.q1, self.q2, self.y, self.ufs, self.parts = [], [], [], [], []
         for i in range(B):
             s, s2, a = S["batch_observations"][i], S["batch_next_observations"][i], S["batch_actions"][i]
-            an, lpn = U("PI", [((1,), F32), ((), F32)], S["pol_theta"], s2, np.array(self.keys[i], dtype=object))
+            an, lpn = U("PI", [((adim,), F32), ((), F32)], S["pol_theta"], s2, np.array(self.keys[i], dtype=object))
             lpn = lpn[()]
 
             def Q(net, o, act):
@@ -466,22 +468,24 @@ def sac_bounds(S, R):
     return within(xs + R.ufs, -3, 3) + [S["algo_gamma"][()] >= Fraction(1, 4), S["algo_gamma"][()] <= 1, R.alpha >= Fraction(1, 10), R.alpha <= 2]
 
 
-def sec_sac_value(ck, B, controls=False, specialise=False, c=None):
-    pol = UFSACPolicy()
+def sec_sac_value(ck, B, controls=False, specialise=False, c=None, m=1, adim=1):
+    pol = UFSACPolicy(adim=adim, m=m)
     batch = Batch(B, pol.observation_space, pol.action_space, None)
     algo = SACH(B, jnp.array(0.99))
     critics = [UFCritic() for _ in range(4)]
-    tr = trace(sac_fn, *sac_args(algo, pol, critics, batch), argnames=NAMES, label=f"SAC.sac_train[B={B},uninterpreted actor and critics,buffer.sample cut,q_optimizer=plain gradient step]")
+    tr = trace(sac_fn, *sac_args(algo, pol, critics, batch), argnames=NAMES, label=f"SAC.sac_train[B={B},obs_dim={m},action_dim={adim},uninterpreted actor and critics,buffer.sample cut,q_optimizer=plain gradient step]")
     ck.encoded(tr)
     concrete.validate(ck, tr, n=1, seed=ck.seed + B + 20, gen=int_gen({"itc": 4}))
     it = Interp()
     S = tr.symbols(it)
     out = tr.run(it, S)
     R = SacUFRef(ck, it, S, B)
+    Bt = B
+    B = f"{B}" + (f",obs_dim={m},action_dim={adim}" if (m, adim) != (1, 1) else "")
     # ---- the next action is freshly sampled: one key per sample, at the successor observation, not shared with any other draw
     def uses(k):
-        return {(a[3][0].get_id(), a[3][1].get_id()) for a in it.uf_apps if a[0] == "PI" and a[1] == 1 and a[3][2].eq(k)}
-    fresh = R.found and len({k.get_id() for k in R.keys}) == B and all(len(uses(k)) == 1 for k in R.keys)
+        return {tuple(x.get_id() for x in a[3][:-1]) for a in it.uf_apps if a[0] == "PI" and a[1] == 1 and a[3][-1].eq(k)}
+    fresh = R.found and len({k.get_id() for k in R.keys}) == Bt and all(len(uses(k)) == 1 for k in R.keys)
     ck.fact(f"sac.next_action_freshly_sampled@B={B}", fresh, "every target draws (a', log pi) = policy.action_and_log_prob(s'_i, key_i) with key_i derived from the train key, pairwise distinct, "
             "and not used for any other draw of the step: " + ", ".join(str(k) for k in R.keys))
     L = out["q_loss"][()]
@@ -500,7 +504,7 @@ def sec_sac_value(ck, B, controls=False, specialise=False, c=None):
                 "y_i = r_i + gamma*(1-terminated_i)*(min(Q1',Q2')(s'_i,a'_i) - alpha*log pi(a'_i|s'_i))",
                 "inputs": rpl.inputs_json(), "alpha": alpha, "samples": det, "q1": q1s.tolist(), "q2": q2s.tolist(), "real_q_loss": float(real["q_loss"]), "constant_times_float64_reference": want}
         return rp
-    c = prove_proportional(ck, f"sac.q_loss_reported@B={B}", [], L, R.ref / B, rp_loss, bnd, c=c)
+    c = prove_proportional(ck, f"sac.q_loss_reported@B={B}", [], L, R.ref / Bt, rp_loss, bnd, c=c)
 
     def rp_fixed(which=("q1", "q2")):
         def rp(res):
@@ -562,8 +566,8 @@ def sec_sac_value(ck, B, controls=False, specialise=False, c=None):
         prove_descent(ck, "sac.entropy_term@B=1", [p["nt"], t1 == t2], G1, q1 - (r + g * (t1 - R.alpha * lp)), rp_fixed(("q1",)), bnd)
     if controls:
         for w in ("mask", "max", "first_only", "plus_entropy", "online_eval"):
-            W = SacUFRef(ck, it, S, B, wrong=w)
-            ck.control(f"control.sac.{w}@B={B}", [], L == z3.RealVal(c) * W.ref / B, nonlinear=True)
+            W = SacUFRef(ck, it, S, Bt, wrong=w)
+            ck.control(f"control.sac.{w}@B={B}", [], L == z3.RealVal(c) * W.ref / Bt, nonlinear=True)
             ck.control(f"control.sac.fixed_point_{w}@B={B}", [], sign_agree(G1, W.R1), nonlinear=True)
     return c
 
@@ -690,8 +694,8 @@ def main():
     ck = Check("C07", "TD targets bootstrap through truncation, never through termination")
     ck.mode = "REAL"
     th = ck.thorough
-    ck.bound(dqn_uninterpreted=dict(batch=[1, 2, 3] if th else [1, 2], actions=3), dqn_tabular=dict(batch=[2, 3] if th else [2], states=2, actions=[2, 3] if th else [2]),
-             sac_uninterpreted=dict(batch=[1, 2, 3] if th else [1, 2], obs_dim=1, action_dim=1), sac_tabular=dict(batch=2, states=2),
+    ck.bound(dqn_uninterpreted=dict(batch=[1, 2, 3] if th else [1, 2], actions=3), dqn_tabular=dict(batch=[2, 3] if th else [2], states=[2, 3] if th else [2], actions=[2, 3] if th else [2]),
+             sac_uninterpreted=dict(batch=[1, 2, 3] if th else [1, 2], obs_dim=[1, 2] if th else [1], action_dim=[1, 2] if th else [1]), sac_tabular=dict(batch=2, states=2),
              note="rewards, done/timeout flags (all 4 combinations), gamma, log_alpha, network outputs/parameters, stored actions and state indices are symbolic")
     ck.stub("buffer.sample is cut: the buffer object handed to dqn_train / sac_train is the symbolic batch (its sample() returns itself)",
             "value obligations: Q-network = uninterpreted Q(theta, obs) -> R^A; SAC actor = uninterpreted PI(theta, obs, key) -> (action, log_prob); critics = b + Q(theta, obs, action) with "
@@ -711,7 +715,7 @@ def main():
         with ck.section(f"dqn.value@B={B}"):
             # the constant identified at the smallest batch is required at the larger ones: mean, not sum
             cd["c"] = sec_dqn_value(ck, B, A, controls=(B == 2), c=cd.get("c"))
-    for (B, S_, A_) in ([(2, 2, 2), (3, 2, 2), (2, 2, 3)] if th else [(2, 2, 2)]):
+    for (B, S_, A_) in ([(2, 2, 2), (3, 2, 2), (2, 2, 3), (2, 3, 2)] if th else [(2, 2, 2)]):
         with ck.section(f"dqn.grad@B={B},S={S_},A={A_}"):
             sec_dqn_grad(ck, B, S_, A_, controls=(B == 2 and A_ == 2))
     with ck.section("dqn.grad.aliased"):
@@ -722,8 +726,12 @@ def main():
     for B in ([1, 2, 3] if th else [1, 2]):
         with ck.section(f"sac.value@B={B}"):
             cs["c"] = sec_sac_value(ck, B, controls=(B == 1), specialise=(B == 1), c=cs.get("c"))
-    with ck.section("sac.tabular"):
-        sec_sac_tab(ck, 2, 2, controls=True)
+    if th:
+        with ck.section("sac.value@B=2,obs_dim=2,action_dim=2"):
+            sec_sac_value(ck, 2, c=cs.get("c"), m=2, adim=2)
+    for (B, S_) in [(2, 2)]:   # larger tabular SAC instances do not finish (w1 cells: nlsat timeout) - bound stated
+        with ck.section(f"sac.tabular@B={B},S={S_}"):
+            sec_sac_tab(ck, B, S_, controls=(B == 2 and S_ == 2))
     ck.finish("DQN.dqn_loss / dqn_loss_grad / dqn_train and SAC.sac_train (buffer.sample cut) are traced on a symbolic batch and interpreted over z3 reals. With uninterpreted "
               "networks the reported losses are proved proportional (two-instance queries, also across batch sizes) to the squared error against "
               "y = r + gamma*(1-terminated)*V' with V' = Q_target(s')[argmax Q_online(s')] (DQN) and min(Q1',Q2')(s',a') - alpha*log pi(a'|s') at a freshly drawn a' (SAC). "
